@@ -218,7 +218,7 @@ def _float_of_symstr(s):
                 # digits etc. remain symbolic: only 'e' exponent forms could be numbers -> unmodelled
                 letters = ''.join(v for kk, v in cls if kk == 'letter')
                 if set(letters) <= set('e') and len(letters) == 1:
-                    raise Unmodelled('float() of symbolic exponent form')
+                    return _float_of_exponent_form(cls)
                 # any other letter combination with symbolic non-letters: could only be inf/nan/infinity with sign/ws
                 if all(kk in ('letter', 'sign', 'ws') for kk, _ in cls):
                     raise Unmodelled('float() of inf/nan-like text with symbolic sign/space')
@@ -264,6 +264,64 @@ def _float_of_symstr(s):
         return float_binop('+', SymInt(num) if not z3.is_int_value(num) else num.as_long(), 0.0) if False else _int_to_float(num)
     # correctly rounded decimal -> double: fl(num / 10^scale); python int/int true division rounds the same way
     return float_binop('/', mkint(num), 10 ** scale)
+
+
+def _decimal_digits(cls):
+    """[sign] digits [. digits] | . digits  (a list of classified characters) -> (signed integer term, scale, ndigits)"""
+    cls = list(cls)
+    neg = False
+    if cls and cls[0][0] == 'sign':
+        neg = cls[0][1]
+        cls.pop(0)
+    num = z3.IntVal(0)
+    scale = 0
+    seen_dot = False
+    ndig = 0
+    for kind, v in cls:
+        if kind == 'digit':
+            num = num * 10 + v
+            ndig += 1
+            if seen_dot:
+                scale += 1
+        elif kind == 'dot':
+            if seen_dot:
+                raise ValueError('could not convert string to float')
+            seen_dot = True
+        else:
+            raise ValueError('could not convert string to float')
+    if ndig == 0:
+        raise ValueError('could not convert string to float')
+    return (z3.simplify(-num) if neg else z3.simplify(num)), scale, ndig
+
+
+def _float_of_exponent_form(cls):
+    """[ws] mantissa (e|E) [sign] digits [ws] with symbolic digits: the exponent is concretised (one path per value), the
+    value is the correctly rounded quotient / product of integers (what the C conversion gives for these short forms)"""
+    from .values import concretize_int
+    cls = list(cls)
+    while cls and cls[0][0] == 'ws':
+        cls.pop(0)
+    while cls and cls[-1][0] == 'ws':
+        cls.pop()
+    k = [i for i, (kind, v) in enumerate(cls) if kind == 'letter'][0]
+    mant, exp = cls[:k], cls[k + 1:]
+    if any(kind == 'us' for kind, v in cls):
+        raise Unmodelled('float() of exponent form with underscores')
+    num, scale, ndig = _decimal_digits(mant)
+    if any(kind == 'dot' for kind, v in exp):
+        raise ValueError('could not convert string to float')
+    xnum, _, xdig = _decimal_digits(exp)
+    if ndig > 12 or xdig > 2:
+        raise Unmodelled('float() of a long exponent form')
+    x = concretize_int(mkint(xnum), -99, 99, 'exponent of numeric text')
+    shift = x - scale
+    if shift >= 0:
+        if ndig + shift > 15:
+            raise Unmodelled('float() of an exponent form beyond 10^15')
+        return _int_to_float(z3.simplify(num * (10 ** shift)))
+    if -shift > 22:
+        raise Unmodelled('float() of an exponent form below 10^-22')
+    return float_binop('/', mkint(num), 10 ** (-shift))
 
 
 def _int_to_float(zi):
@@ -329,7 +387,11 @@ def digits_of(z, e=None):
         p *= 10
     if nd is None:
         raise Unmodelled('str(int) with more than %d digits' % maxd)
-    # digits as fresh bounded integers tied to z by one linear equation (unique decomposition)
+    # digits as fresh bounded integers tied to z by one linear equation (unique decomposition); one set per term and path
+    key = ('digits', z.get_id(), nd)
+    hit = e.uf_cache.get(key)
+    if hit is not None and hit[0].eq(z):
+        return list(hit[1])
     ds = []
     total = z3.IntVal(0)
     for i in range(nd):
@@ -339,7 +401,9 @@ def digits_of(z, e=None):
         total = total * 10 + d
     e.nfresh += 1
     e.add(total == z)
-    return [d + 48 for d in ds]
+    out = [d + 48 for d in ds]
+    e.uf_cache[key] = (z, out)
+    return list(out)
 
 
 def str_of_int(x):
@@ -876,13 +940,47 @@ def sym_strmod(fmt, args):
     tup = args if isinstance(args, tuple) else (args,)
     if not any(symbolic(x) for x in tup):
         return fmt % args
-    # only %s / %r-free simple templates are modelled
-    parts = fmt.split('%s')
-    if len(parts) != len(tup) + 1 or '%' in ''.join(parts).replace('%%', ''):
+    # modelled conversions: %s, %d / %i of integers, %.Ng of integers that print without an exponent; %% literal
+    import re as _re
+    if isinstance(fmt, SymStr):
+        raise Unmodelled('%-format with a symbolic template')
+    toks = _re.split(r'(%(?:%|s|d|i|\.[0-9]+g))', fmt)
+    if '%' in ''.join(toks[0::2]):
         raise Unmodelled('%%-format %r with symbolic argument' % fmt)
-    out = parts[0]
-    for p, x in zip(parts[1:], tup):
-        out = out + m_str(x) + p
+    convs = [t for t in toks[1::2] if t != '%%']
+    if len(convs) != len(tup):
+        raise TypeError('not enough arguments for format string' if len(convs) > len(tup) else 'not all arguments converted during string formatting')
+    out = ''
+    k = 0
+    for i, t in enumerate(toks):
+        if i % 2 == 0:
+            out = out + t
+            continue
+        if t == '%%':
+            out = out + '%'
+            continue
+        x = tup[k]
+        k += 1
+        if t == '%s':
+            out = out + m_str(x)
+        elif t in ('%d', '%i'):
+            if isinstance(x, SymStr):
+                raise TypeError('%d format: a real number is required, not str')
+            if isinstance(x, SymFloat):
+                x = x.__trunc__()
+            out = out + m_str(mkint(zint(x)) if isinstance(x, SymBool) else x)
+        else:
+            n = int(t[2:-1]) or 1
+            if isinstance(x, (SymInt, SymBool)):
+                z = zint(x)
+                # %.Ng of an integer: its digits when it has at most N of them (and N <= 15: exact as a double)
+                if n <= 15 and SymBool(z3.And(z < 10 ** n, z > -(10 ** n))):
+                    out = out + m_str(mkint(z))
+                    continue
+                raise Unmodelled('%%-format %s of an integer with more than %d digits (exponent notation)' % (t, n))
+            if isinstance(x, SymStr):
+                raise TypeError('must be real number, not str')
+            raise Unmodelled('%%-format %s of a symbolic float' % t)
     return out
 
 
